@@ -162,8 +162,9 @@ func (p *poller) pollPeers(ctx context.Context, force bool) {
 			continue
 		}
 
-		peer.MarkAsPolled()
-		if err := p.store.SavePeerState(peer); err != nil {
+		// Do not write back the copy loaded before the send: a poll of this
+		// peer handled in the meantime would be overwritten.
+		if err := p.store.MarkPeerPolled(peer.ID()); err != nil {
 			log.Printf("failed to persist peer state for %s: %v", peer.ID().String(), err)
 		}
 	}
